@@ -153,6 +153,198 @@ theorem quote_injective (s t : Text) (h : quote "" s = quote "" t) : utf8 s = ut
   rw [h, quote_roundtrip t] at hs
   exact (Option.some.inj hs).symm
 
+/-! ## the request URL -/
+
+/-- every path template of the table consists of clean literal segments and `%s` segments, one per
+    argument -/
+theorem templates_wellformed : ∀ e ∈ Gen.Mgmt.ops, templateOk e = true := by decide +kernel
+
+/-- The full claim about the URL: for *every* tuple of names the path of the prepared URL, split
+    at `/`, is the base directory, `api`, and the template's segments with each `%s` replaced by
+    the percent-encoding of the corresponding name. -/
+def SegmentsExact : Prop :=
+  ∀ (base : Base) (e : Endpoint) (env : Env) (names : List Text), e ∈ Gen.Mgmt.ops →
+    All2 (Resolves env) e.args names → base.ok = true →
+    (∀ d ∈ baseDirs base.bpath, isDot d = false) →
+    ∃ segs qs, parseTemplate e.template.toList = some segs ∧
+      inst segs (names.map (quote "")) = some qs ∧
+      (url base e env).toOption =
+        some (base.origin ++ '/' :: joinWith '/' (baseDirs base.bpath ++ "api".toList :: qs))
+
+/-- **Main theorem (partial: names whose UTF-8 form is empty, `.` or `..` are excluded).**
+    For every row whose arguments are all `quote(·, '')`-ed (`all_names_quoted`) and whose template
+    is well formed (`templates_wellformed`), every environment that gives the arguments the values
+    `names`, and every API base URL with a clean directory path:
+    the prepared URL is `origin/dir…/api/seg…` where the segments are the template's literal
+    segments and, in each `%s` position, `quote(name, '')`; and splitting that path at `/` gives
+    back exactly these segments — each name is one segment (`quote_roundtrip` says that segment
+    decodes to the name, `quote_no_delimiter` that it contains no `/ ? # ;`).
+    Missing for `SegmentsExact`: empty and dot names, see `not_segmentsExact`. -/
+theorem segments_exact_partial (base : Base) (e : Endpoint) (env : Env) (names : List Text)
+    (hq : All2 (Resolves env) e.args names) (htpl : templateOk e = true)
+    (hnames : ∀ n ∈ names, goodName n) (hbase : base.ok = true)
+    (hdirs : ∀ d ∈ baseDirs base.bpath, isDot d = false) :
+    ∃ segs qs, parseTemplate e.template.toList = some segs ∧
+      inst segs (names.map (quote "")) = some qs ∧
+      url base e env =
+        .ok (base.origin ++ '/' :: joinWith '/' (baseDirs base.bpath ++ "api".toList :: qs)) ∧
+      splitOn '/' (joinWith '/' (baseDirs base.bpath ++ "api".toList :: qs)) =
+        baseDirs base.bpath ++ "api".toList :: qs := by
+  -- the template
+  unfold templateOk at htpl
+  split at htpl
+  case h_2 => cases htpl
+  rename_i segs hparse
+  simp only [Bool.and_eq_true, beq_iff_eq, segsClean, Bool.not_eq_true', List.all_eq_true] at htpl
+  obtain ⟨⟨⟨hne, hlit⟩, hmid⟩, hholes⟩ := htpl
+  -- the instantiated segments
+  have hlen : holes segs = (names.map (quote "")).length := by
+    rw [hholes, all2_length hq, List.length_map]
+  obtain ⟨qs, hinst⟩ := inst_some segs _ hlen
+  have hqlen := inst_length _ _ _ hinst
+  have hqne : qs ≠ [] := by
+    intro e0; subst e0
+    cases segs with
+    | nil => simp at hne
+    | cons _ _ => simp at hqlen
+  have hrel := inst_forall2 _ _ _ hinst
+  -- each instantiated segment is good
+  have hgood : ∀ q ∈ qs, GoodSeg q := by
+    intro q hqm
+    obtain ⟨x, hx, hxq⟩ := forall2_mem_right hrel q hqm
+    cases x with
+    | lit s =>
+      have : q = s := hxq
+      subst this
+      exact goodSeg_lit (by simpa [segLitOk] using hlit _ hx)
+    | hole =>
+      have : q ∈ names.map (quote "") := hxq
+      obtain ⟨n, hn, rfl⟩ := List.mem_map.1 this
+      exact (goodSeg_quote (hnames n hn)).1
+  have hmidq : ∀ q ∈ qs.dropLast, q ≠ [] := by
+    refine forall2_dropLast (P := fun x => segNonEmpty x = true) (Q := fun q => q ≠ []) ?_ hrel hmid
+    intro x q hxq hp
+    cases x with
+    | lit s =>
+      have : q = s := hxq
+      subst this
+      simpa [segNonEmpty] using hp
+    | hole =>
+      have : q ∈ names.map (quote "") := hxq
+      obtain ⟨n, hn, rfl⟩ := List.mem_map.1 this
+      exact (goodSeg_quote (hnames n hn)).2
+  have hapi : GoodSeg "api".toList := goodSeg_lit (by decide)
+  have hgood' : ∀ q ∈ "api".toList :: qs, GoodSeg q := by
+    intro q hqm
+    rcases List.mem_cons.1 hqm with rfl | hqm
+    · exact hapi
+    · exact hgood q hqm
+  -- the path handed to the HTTP client, and the relative reference
+  have hpath : path e env = .ok (joinWith '/' qs) := by
+    simp only [path, argTexts_quoted env hq, fill_parsed hparse, hinst, Option.map_some]
+  have hprefix : Gen.Mgmt.pathPrefix.toList = "api/".toList := by decide
+  have hrelEq : Gen.Mgmt.pathPrefix.toList ++ joinWith '/' qs = joinWith '/' ("api".toList :: qs) := by
+    rw [hprefix, joinWith_cons_ne _ _ _ hqne]; rfl
+  have hchars : (joinWith '/' ("api".toList :: qs)).all pathChar = true := by
+    rw [List.all_eq_true]
+    exact all_pathChar_joinWith _ (fun q hqm => (hgood' q hqm).chars)
+  have hesc : wellEscaped (joinWith '/' ("api".toList :: qs)) = true :=
+    wellEscaped_joinWith _ (fun q hqm => (hgood' q hqm).esc)
+  have hhead : (joinWith '/' ("api".toList :: qs)).head? ≠ some '/' := by
+    rw [joinWith_cons_ne _ _ _ hqne, show "api".toList = ['a', 'p', 'i'] by decide]
+    simp
+  have hb : base.bpath.isEmpty = true ∨ base.bpath.head? = some '/' := by
+    simp only [Base.ok, Bool.and_eq_true, Bool.or_eq_true, decide_eq_true_eq] at hbase
+    exact hbase.1.1
+  have hmid' : ∀ s ∈ ("api".toList :: qs).dropLast, s ≠ [] := by
+    cases qs with
+    | nil => exact absurd rfl hqne
+    | cons q0 qs0 =>
+      intro s hs
+      simp only [List.dropLast, List.mem_cons] at hs
+      rcases hs with rfl | hs
+      · decide
+      · exact hmidq s (by simpa [List.dropLast] using hs)
+  have hjoin := urljoinPath_clean base.bpath ("api".toList :: qs) hb hdirs (by simp)
+    (fun s hs => (hgood' s hs).noSlash) hmid' (fun s hs => (hgood' s hs).noDot)
+  refine ⟨segs, qs, hparse, hinst, ?_, ?_⟩
+  · simp only [url, hpath]
+    rw [hrelEq, if_pos, hjoin]
+    simp only [hbase, hchars, hesc, Bool.and_self, Bool.true_and, decide_eq_true_eq]
+    exact hhead
+  · apply splitOn_join
+    · simp
+    · intro s hs
+      rcases List.mem_append.1 hs with hs | hs
+      · have : s ∈ splitOn '/' base.bpath := by
+          simp only [baseDirs, baseParts] at hs
+          have hs' := (List.mem_filter.1 hs).1
+          have hs'' := List.mem_of_mem_drop hs'
+          split at hs''
+          · exact hs''
+          · exact List.dropLast_subset _ hs''
+        exact splitOn_mem_notMem '/' _ s this
+      · exact (hgood' s hs).noSlash
+
+theorem all2_resolves {env : Env} : ∀ {args : List Arg} {names : List Text},
+    (∀ a ∈ args, a.enc = some "") → All2 (fun a n => pyOrChain env a.alts = some n) args names →
+    All2 (Resolves env) args names := by
+  intro args names hall h
+  induction h with
+  | nil => exact .nil
+  | cons hr _ ih => exact .cons ⟨hall _ (by simp), hr⟩ (ih (fun a ha => hall a (by simp [ha])))
+
+/-- corollary for the table: the hypotheses on the row are discharged by the table theorems -/
+theorem segments_exact_table (base : Base) (e : Endpoint) (he : e ∈ Gen.Mgmt.ops) (env : Env)
+    (names : List Text) (hres : All2 (fun a n => pyOrChain env a.alts = some n) e.args names)
+    (hnames : ∀ n ∈ names, goodName n) (hbase : base.ok = true)
+    (hdirs : ∀ d ∈ baseDirs base.bpath, isDot d = false) :
+    ∃ segs qs, parseTemplate e.template.toList = some segs ∧
+      inst segs (names.map (quote "")) = some qs ∧
+      url base e env =
+        .ok (base.origin ++ '/' :: joinWith '/' (baseDirs base.bpath ++ "api".toList :: qs)) ∧
+      splitOn '/' (joinWith '/' (baseDirs base.bpath ++ "api".toList :: qs)) =
+        baseDirs base.bpath ++ "api".toList :: qs := by
+  have hq : All2 (Resolves env) e.args names := all2_resolves (all_names_quoted e he) hres
+  exact segments_exact_partial base e env names hq (templates_wellformed e he) hnames hbase hdirs
+
+/-- `SegmentsExact` is false of the code: `Queue.delete('..')` on vhost `/` requests
+    `/api/queues/` (urljoin removes the dot segment together with the vhost segment).
+    Recorded as known finding `C19/segment-lost/empty-or-dot-name`. -/
+theorem not_segmentsExact : ¬ SegmentsExact := by
+  intro h
+  have he : (findOp "Queue.delete" "").isSome = true := by decide +kernel
+  obtain ⟨e, hfind⟩ := Option.isSome_iff_exists.1 he
+  have hmem : e ∈ Gen.Mgmt.ops := List.mem_of_find?_eq_some hfind
+  let env : Env := [("queue", "..".toList), ("virtual_host", "/".toList)]
+  let base : Base := ⟨"http://h".toList, []⟩
+  have hargs : e.args = [⟨some "", ["virtual_host"]⟩, ⟨some "", ["queue"]⟩] := by
+    have : (findOp "Queue.delete" "").map (·.args) =
+        some [⟨some "", ["virtual_host"]⟩, ⟨some "", ["queue"]⟩] := by decide +kernel
+    rw [hfind] at this; exact Option.some.inj this
+  have hres : All2 (Resolves env) e.args ["/".toList, "..".toList] := by
+    rw [hargs]
+    exact .cons ⟨rfl, by decide⟩ (.cons ⟨rfl, by decide⟩ .nil)
+  obtain ⟨segs, qs, hp, hi, hu⟩ := h base e env _ hmem hres (by decide) (by decide)
+  have hurl : (findOp "Queue.delete" "").map (fun e => (url base e env).toOption) =
+      some (some "http://h/api/queues/".toList) := by decide +kernel
+  rw [hfind] at hurl
+  simp only [Option.map_some, Option.some.injEq] at hurl
+  have htplE : (findOp "Queue.delete" "").map (fun e => parseTemplate e.template.toList) =
+      some (some [.lit "queues".toList, .hole, .hole]) := by decide +kernel
+  rw [hfind] at htplE
+  simp only [Option.map_some, Option.some.injEq] at htplE
+  have hsegs : segs = [.lit "queues".toList, .hole, .hole] := by
+    rw [hp] at htplE; exact Option.some.inj htplE
+  subst hsegs
+  have hqs : qs = ["queues".toList, "%2F".toList, "..".toList] := by
+    have : inst [.lit "queues".toList, .hole, .hole] (["/".toList, "..".toList].map (quote "")) =
+        some ["queues".toList, "%2F".toList, "..".toList] := by decide +kernel
+    rw [hi] at this; exact Option.some.inj this
+  subst hqs
+  rw [hurl] at hu
+  exact absurd hu (by decide +kernel)
+
 /-! ## outcome of a call -/
 
 /-- `HTTPClient._request` ends in a return, `ApiError` or `ApiConnectionError` — nothing else -/
